@@ -1,7 +1,7 @@
 (* C14, part 7: the property-level statements, assembled from the invariance of is_default / == / the encoder /
    the presence report under [mat] and from "every observer, copy and deepcopy is an instance of [mat]". *)
 From BP Require Import Base.Prelude Model.Types Model.Float Model.Object Model.Eq Model.Encode Model.Decode Model.History Model.C14Ops.
-From BP Require Import Model.WellFormed Proofs.BytesP Proofs.C14Ind Proofs.C14Mat Proofs.C14Eq Proofs.C14Enc Proofs.C14Obs Proofs.C14Pres.
+From BP Require Import Model.WellFormed Proofs.BytesP Proofs.C14Ind Proofs.C14Mat Proofs.C14Eq Proofs.C14Enc Proofs.C14Obs Proofs.C14Pres Proofs.C14Refl.
 From Coq Require Import Lia.
 
 (* bool(m) *)
@@ -125,6 +125,22 @@ Section Wf.
   Proof.
     intros Hs. split; [apply mat_indistinguishable; apply (deepcopy_mat sc Hopt o Hs)|].
     destruct o as [c raw sow unk cur]. split; reflexivity.
+  Qed.
+
+  Theorem copy_equal o :
+    shaped_top sc o = true -> eq_refl_ok sc (PMsg o) = true ->
+    obj_eq sc (copy sc o) o = true /\ obj_eq sc o (copy sc o) = true.
+  Proof.
+    intros Hs Hr. destruct (copy_faithful o Hs) as [(_ & He & _) _]. destruct (He o) as [E1 E2].
+    rewrite E1, E2. split; apply obj_eq_refl; exact Hr.
+  Qed.
+
+  Theorem deepcopy_equal o :
+    shaped_obj sc o = true -> eq_refl_ok sc (PMsg o) = true ->
+    obj_eq sc (deepcopy sc o) o = true /\ obj_eq sc o (deepcopy sc o) = true.
+  Proof.
+    intros Hs Hr. destruct (deepcopy_faithful o Hs) as [(_ & He & _) _]. destruct (He o) as [E1 E2].
+    rewrite E1, E2. split; apply obj_eq_refl; exact Hr.
   Qed.
 
   (* copies of observed objects: observers and copies in any order *)
